@@ -179,6 +179,15 @@ func (mi *MessageInfo) unmarshalPointerEager(b []byte, p pointer, groupTag proto
 			if f.funcs.unmarshal == nil {
 				break
 			}
+			if f.isLazy && presence.Present(f.presenceIndex) {
+				// The field may still be held in undecoded form from an
+				// earlier lazy unmarshal of this message (a merging
+				// unmarshal with lazy decoding disabled). Expand it, so that
+				// this occurrence is merged into it rather than replacing it.
+				if p.Apply(f.offset).AtomicGetPointer().IsNil() {
+					mi.lazyUnmarshal(p, f.num)
+				}
+			}
 			var o unmarshalOutput
 			o, err = f.funcs.unmarshal(b, p.Apply(f.offset), wtyp, f, opts)
 			n = o.n
